@@ -316,6 +316,8 @@ func c13wDirectionTest(t *testing.T, prop string, saFocus bool) {
 type c13rCase struct {
 	Kind  string      `json:"kind"` // "ns" | "sa"
 	Pairs [][2]string `json:"pairs"`
+	// Split > 0 (kind sa): the list is written as two entries for the same namespace id, the first holding Pairs[:Split]
+	Split int `json:"split,omitempty"`
 }
 
 func c13rInjective(pairs [][2]string) bool {
@@ -337,22 +339,35 @@ func c13rRun(c c13rCase) error {
 			}
 		} else {
 			nm := config.SANamespaceMapping{Name: "ns", NamespaceId: "ns-id"}
-			for _, p := range c.Pairs {
-				nm.Mappings = append(nm.Mappings, config.SAMapping{LocalName: p[0], RemoteName: p[1]})
+			nm2 := nm
+			for i, p := range c.Pairs {
+				if c.Split > 0 && i >= c.Split {
+					nm2.Mappings = append(nm2.Mappings, config.SAMapping{LocalName: p[0], RemoteName: p[1]})
+				} else {
+					nm.Mappings = append(nm.Mappings, config.SAMapping{LocalName: p[0], RemoteName: p[1]})
+				}
 			}
 			cfg.SearchAttributeTranslation.NamespaceMappings = []config.SANamespaceMapping{nm}
+			if len(nm2.Mappings) > 0 {
+				cfg.SearchAttributeTranslation.NamespaceMappings = append(cfg.SearchAttributeTranslation.NamespaceMappings, nm2)
+			}
 		}
 	})
 	if w != nil {
 		w.Close()
 	}
+	split := c.Kind == "sa" && c.Split > 0 && c.Split < len(c.Pairs)
 	if c13rInjective(c.Pairs) {
-		if err != nil {
+		// (a one-to-one list written as two entries for one namespace may be merged or refused as a duplicate entry: no claim)
+		if err != nil && !split {
 			return fmt.Errorf("one-to-one %s mapping %v was rejected at start-up: %v", c.Kind, c.Pairs, err)
 		}
 		return nil
 	}
 	if err == nil {
+		if split {
+			return fmt.Errorf("non-injective sa mapping %v, written as two entries for the same namespace id (%v | %v), was accepted at start-up", c.Pairs, c.Pairs[:c.Split], c.Pairs[c.Split:])
+		}
 		return fmt.Errorf("non-injective %s mapping %v was accepted at start-up", c.Kind, c.Pairs)
 	}
 	return nil
@@ -363,7 +378,7 @@ func TestVF_C13_Rejection(t *testing.T) {
 	if rp := vfshared.ReplayPart(); rp != "" && rp != part {
 		t.Skip()
 	}
-	st := vfshared.NewStats("C13", part, "NewClusterConnection with generated namespace / search-attribute mapping lists (1-5 pairs over a 4-name alphabet per side, so duplicate locals and duplicate remotes are frequent; exact duplicate pairs are not generated): must fail for every non-injective list and succeed for every one-to-one list; non-trivial = non-injective list; distinct = distinct lists")
+	st := vfshared.NewStats("C13", part, "NewClusterConnection with generated namespace / search-attribute mapping lists (1-5 pairs over a 4-name alphabet per side, so duplicate locals and duplicate remotes are frequent; exact duplicate pairs are not generated; a search-attribute list may be written as two entries for the same namespace id): must fail for every non-injective list and succeed for every one-to-one list; non-trivial = non-injective list; distinct = distinct lists")
 	defer st.Flush()
 	if f := vfshared.ReplayFile(); f != "" {
 		var c c13rCase
@@ -388,6 +403,9 @@ func TestVF_C13_Rejection(t *testing.T) {
 			}
 			seen[p] = true
 			c.Pairs = append(c.Pairs, p)
+		}
+		if c.Kind == "sa" && len(c.Pairs) >= 2 && rapid.IntRange(0, 2).Draw(rt, "split") == 0 {
+			c.Split = rapid.IntRange(1, len(c.Pairs)-1).Draw(rt, "splitAt")
 		}
 		err := c13rRun(c)
 		if err != nil {
